@@ -54,6 +54,11 @@ func (r *run) seqTake(v value, off value, n value) value {
 		}
 		return &sym{sx("str.substr", smtStr(vv), intTerm(off), intTerm(n)), SStr}
 	case *sym:
+		if o, ok := off.(int64); ok && o == 0 {
+			if ns, ok := n.(*sym); ok && ns.t == "(str.len "+vv.t+")" {
+				return vv
+			}
+		}
 		return &sym{sx("str.substr", vv.t, intTerm(off), intTerm(n)), vv.sort}
 	case nil:
 		return []value(nil)
@@ -369,7 +374,120 @@ func addIOIntrinsics(m map[string]intrinsicFn) {
 	}
 }
 
+func concBytesOrStr(v value) (string, bool) {
+	switch v := v.(type) {
+	case string:
+		return v, true
+	case []value:
+		return goBytes(v)
+	}
+	return "", false
+}
+
+func addBytealgIntrinsics(m map[string]intrinsicFn) {
+	idxByte := func(fr *frame, a []value) value {
+		s, ok := concBytesOrStr(a[0])
+		c, ok2 := a[1].(uint64)
+		if ok && ok2 {
+			return int64(strings.IndexByte(s, byte(c)))
+		}
+		if ok2 {
+			return intSym(sx("str.indexof", strTerm(a[0]), smtStr(string([]byte{byte(c)})), "0"))
+		}
+		panic(unsupported{"bytealg.IndexByte with symbolic byte"})
+	}
+	m["internal/bytealg.IndexByteString"] = idxByte
+	m["internal/bytealg.IndexByte"] = idxByte
+	m["strings.IndexByte"] = idxByte
+	m["bytes.IndexByte"] = idxByte
+	m["internal/bytealg.IndexString"] = func(fr *frame, a []value) value {
+		x, ok := concBytesOrStr(a[0])
+		y, ok2 := concBytesOrStr(a[1])
+		if ok && ok2 {
+			return int64(strings.Index(x, y))
+		}
+		return intSym(sx("str.indexof", strTerm(a[0]), strTerm(a[1]), "0"))
+	}
+	m["internal/bytealg.Index"] = m["internal/bytealg.IndexString"]
+	m["internal/bytealg.CountString"] = func(fr *frame, a []value) value {
+		x, ok := concBytesOrStr(a[0])
+		c, ok2 := a[1].(uint64)
+		if ok && ok2 {
+			return int64(strings.Count(x, string([]byte{byte(c)})))
+		}
+		panic(unsupported{"bytealg.Count symbolic"})
+	}
+	m["internal/bytealg.Count"] = m["internal/bytealg.CountString"]
+	m["internal/bytealg.Equal"] = func(fr *frame, a []value) value {
+		x, ok := concBytesOrStr(a[0])
+		y, ok2 := concBytesOrStr(a[1])
+		if ok && ok2 {
+			return x == y
+		}
+		return boolSym(sx("=", strTerm(a[0]), strTerm(a[1])))
+	}
+	m["internal/bytealg.Compare"] = func(fr *frame, a []value) value {
+		x, ok := concBytesOrStr(a[0])
+		y, ok2 := concBytesOrStr(a[1])
+		if ok && ok2 {
+			return int64(strings.Compare(x, y))
+		}
+		panic(unsupported{"bytealg.Compare symbolic"})
+	}
+	m["internal/bytealg.MakeNoZero"] = func(fr *frame, a []value) value {
+		n := int(asInt64(a[0]))
+		out := make([]value, n)
+		for i := range out {
+			out[i] = uint64(0)
+		}
+		return out
+	}
+	m["internal/stringslite.Index"] = m["strings.Index"]
+	m["internal/stringslite.IndexByte"] = idxByte
+	m["internal/stringslite.HasPrefix"] = m["strings.HasPrefix"]
+	m["internal/stringslite.HasSuffix"] = m["strings.HasSuffix"]
+	m["internal/stringslite.Cut"] = m["strings.Cut"]
+	m["internal/stringslite.TrimPrefix"] = m["strings.TrimPrefix"]
+	m["internal/stringslite.TrimSuffix"] = m["strings.TrimSuffix"]
+	m["strings.Count"] = func(fr *frame, a []value) value {
+		x, ok := concStr(a[0])
+		y, ok2 := concStr(a[1])
+		if ok && ok2 {
+			return int64(strings.Count(x, y))
+		}
+		panic(unsupported{"strings.Count symbolic"})
+	}
+	m["strings.LastIndexByte"] = func(fr *frame, a []value) value {
+		x, ok := concStr(a[0])
+		c, ok2 := a[1].(uint64)
+		if ok && ok2 {
+			return int64(strings.LastIndexByte(x, byte(c)))
+		}
+		panic(unsupported{"strings.LastIndexByte symbolic"})
+	}
+	m["strings.IndexAny"] = func(fr *frame, a []value) value {
+		x, ok := concStr(a[0])
+		y, ok2 := concStr(a[1])
+		if ok && ok2 {
+			return int64(strings.IndexAny(x, y))
+		}
+		panic(unsupported{"strings.IndexAny symbolic"})
+	}
+	m["strings.ContainsRune"] = func(fr *frame, a []value) value {
+		x, ok := concStr(a[0])
+		c, ok2 := a[1].(int64)
+		if ok && ok2 {
+			return strings.ContainsRune(x, rune(c))
+		}
+		if ok2 && c < 128 {
+			return boolSym(sx("str.contains", strTerm(a[0]), smtStr(string(rune(c)))))
+		}
+		panic(unsupported{"strings.ContainsRune symbolic"})
+	}
+}
+
 func addMiscIntrinsics(m map[string]intrinsicFn) {
+	addBytealgIntrinsics(m)
 	m["regexp.MatchString"] = func(fr *frame, a []value) value {
 		pat, ok := a[0].(string)
 		if !ok {
@@ -606,6 +724,10 @@ func addMiscIntrinsics(m map[string]intrinsicFn) {
 		}
 		return out
 	}
+	m["os.Stat"] = func(fr *frame, a []value) value {
+		return tuple{iface{}, fr.r.newError("stat " + toString(a[0]) + ": no such file or directory")}
+	}
+	m["os.Lstat"] = m["os.Stat"]
 	m["os.Getpid"] = func(fr *frame, a []value) value { return int64(4242) }
 	m["os.Exit"] = func(fr *frame, a []value) value {
 		panic(targetPanic{msg: fmt.Sprintf("os.Exit(%v)", a[0])})
